@@ -109,7 +109,7 @@ def is_value_op(f, path):
     return f.ty_s(b["locals"][0]["ty"]).startswith("std::result::Result<value::Value")
 
 
-def dispatch_rows(f, max_paths=5000):
+def dispatch_rows(f, max_paths=5000, loop_bound=2):
     ev = find_evaluator(f)
     if not ev:
         return None
@@ -121,7 +121,7 @@ def dispatch_rows(f, max_paths=5000):
         return p == fn_path or is_value_op(f, p) or (f.bodies.get(p, {}).get("impl") or {}).get("self_s", "").startswith("expr::eval::context::EvalContext")
 
     for var in f.adts[EXPR]["variants"]:
-        it = Interp(f, opaque=opaque, max_paths=max_paths)
+        it = Interp(f, opaque=opaque, max_paths=max_paths, loop_bound=loop_bound)
         st = State()
         selfv = sym_fields(it, EXPR, var["name"], "self")
         ctx = ("ref", st.alloc(("sym", "ctx")))
